@@ -175,8 +175,8 @@ var plans = map[string]*plan{
 		Quick:       []batchSpec{{Test: "TestC19", N: 4, Timeout: 10 * m}},
 		Thorough:    []batchSpec{{Test: "TestC19", N: 4, Timeout: 10 * m}},
 		EvalStats:   []string{"c19.runs"},
-		Floors:      map[string]int64{"c19.runs": 84, "c19.pings_answered": 1000, "classes": 84},
-		Exhaustive:  func(r *result) bool { return r.stats["c19.runs"] == 84 },
+		Floors:      map[string]int64{"c19.runs": 96, "c19.pings_answered": 1000, "classes": 96},
+		Exhaustive:  func(r *result) bool { return r.stats["c19.runs"] == 96 },
 		Assumptions: []string{"virtual time (testing/synctest) changes when timers fire, not what the code does when they fire"},
 	},
 	"C02": {
@@ -192,11 +192,11 @@ var plans = map[string]*plan{
 	"C12": {
 		Level: "exploration",
 		Rule: "client API vs scripted TCP peer on 127.0.0.1: batches of 4..15 Publish(QoS 0/1/2)/Subscribe/Unsubscribe/Ping calls with completion callbacks stamped from one global counter; the peer stamps every ack before writing it and acknowledges in orders {FIFO, reversed, random, delayed, PUBCOMP long after PUBREC, random with duplicated acks and acks for unused ids}; a peer PINGREQ->PINGRESP round trip is the barrier. Oracle: every callback fires exactly once, not before its terminal ack was sent, and has fired at the barrier once its ack and those of all earlier requests of the same kind were sent; QoS 0 completes before Publish returns; #PUBREL(id) = #PUBREC(id); in-flight identifiers non-zero and distinct. " +
-			"In every third script the yield hook parks the sending call between write and registration, the peer's ack is sent and the processor's proc.handled event awaited before the call is released (the 'ack processed before registered' schedule, forced). Broker-to-subscriber (synctest): 2..4 publishers reuse identifiers 1,2 at QoS 1/2 towards a subscriber that withholds acks; unacknowledged inbound PUBLISH identifiers must be non-zero and pairwise distinct, PUBREC answered by PUBREL with the same id. distinct = (ack order, forced, request kinds, batch size) and b2s configurations.",
-		Quick:          []batchSpec{{Test: "TestC12Client", N: 8, Timeout: 15 * m}, {Test: "TestC12Broker", N: 4, Timeout: 10 * m}},
-		Thorough:       []batchSpec{{Test: "TestC12Client", N: 16, Timeout: 60 * m}, {Test: "TestC12Broker", N: 8, Timeout: 30 * m}, {Test: "TestC12Client", N: 8, Race: true, Timeout: 60 * m}},
+			"In every third script the yield hook parks the sending call between write and registration, the peer's ack is sent and the processor's proc.handled event awaited before the call is released (the 'ack processed before registered' schedule, forced). Broker-to-subscriber (synctest): 2..4 publishers reuse identifiers 1,2 at QoS 1/2 towards a subscriber that withholds acks; unacknowledged inbound PUBLISH identifiers must be non-zero and pairwise distinct, PUBREC answered by PUBREL with the same id. Bursts: after 1..11 completed requests of one kind, 17..46 requests of that kind are outstanding at once (the ack queue grows while wrapped) and are acknowledged in order with a barrier after each. distinct = (ack order, forced, request kinds, batch size) and b2s configurations.",
+		Quick:          []batchSpec{{Test: "TestC12Client", N: 8, Timeout: 15 * m}, {Test: "TestC12Broker", N: 4, Timeout: 10 * m}, {Test: "TestC12Burst", N: 4, Timeout: 10 * m}},
+		Thorough:       []batchSpec{{Test: "TestC12Client", N: 16, Timeout: 60 * m}, {Test: "TestC12Broker", N: 8, Timeout: 30 * m}, {Test: "TestC12Burst", N: 8, Timeout: 30 * m}, {Test: "TestC12Client", N: 8, Race: true, Timeout: 60 * m}},
 		EvalStats:      []string{"c12.scripts", "c12.b2s_scenarios"},
-		Floors:         map[string]int64{"c12.scripts": 340, "c12.forced_interleavings": 100, "c12.requests": 2500, "c12.b2s_scenarios": 190, "c12.b2s_inflight_checked": 300, "classes": 60},
+		Floors:         map[string]int64{"c12.scripts": 340, "c12.forced_interleavings": 100, "c12.requests": 2500, "c12.b2s_scenarios": 190, "c12.b2s_inflight_checked": 300, "c12.bursts": 44, "classes": 60},
 		FloorsThorough: map[string]int64{"c12.scripts": 7000, "c12.forced_interleavings": 2000, "classes": 100},
 		Assumptions:    []string{"the client's processor handles inbound packets sequentially, so a PINGREQ/PINGRESP round trip is a barrier", "the forced interleaving parks a goroutine that holds no library lock (legal schedule)"},
 	},
@@ -214,12 +214,12 @@ var plans = map[string]*plan{
 	"C16": {
 		Level: "fault_enumeration",
 		Rule: "teardown matrix in a synctest bubble (net.Pipe, 16 KiB rings): cause {DISCONNECT, abrupt close, keep-alive expiry in virtual time, protocol error, Server.Close} x buffer condition {idle; own outbound ring full because the subscriber stopped reading and the publisher's processor is parked in its WriteWait; publisher's inbound ring full as well; cross-blocked pair publishing to each other, both not reading} x order in which the two connections end x will present/absent x CleanSession 0/1 (160 cells). " +
-			"Oracle once every connection that had stopped reading has been ended: exactly one teardown-finished event per connection, wills seen by a witness exactly once unless the end was a DISCONNECT, a probe publish to the dead client's filter is acknowledged and reaches nobody, a clean session is gone, Server.Close returns, and a goroutine snapshot shows no frame of the library. A parked Server.Close or leftover goroutine is reported with its stack; a mutex deadlock (not durably blocked, so synctest.Wait cannot return) is caught by the process-wide deadlock watchdog. distinct = cells.",
-		Quick:          []batchSpec{{Test: "TestC16", N: 8, Timeout: 15 * m}},
-		Thorough:       []batchSpec{{Test: "TestC16", N: 16, Timeout: 30 * m}},
+			"Oracle once every connection that had stopped reading has been ended: exactly one teardown-finished event per connection, wills seen by a witness exactly once unless the end was a DISCONNECT, a probe publish to the dead client's filter is acknowledged and reaches nobody, a clean session is gone, Server.Close returns, and a goroutine snapshot shows no frame of the library. A parked Server.Close or leftover goroutine is reported with its stack; a mutex deadlock (not durably blocked, so synctest.Wait cannot return) is caught by the process-wide deadlock watchdog. Window cells (real time): the yield hook delays a goroutine of the victim connection between its done-check and its Cond.Wait on the inbound ring (processor), the outbound ring (sender) or the outbound ring seen from a publisher blocked for space, and the connection is ended (abrupt / DISCONNECT / Server.Close) inside that window; teardown must still finish (stop.done event), decided by goroutine state otherwise. distinct = cells.",
+		Quick:          []batchSpec{{Test: "TestC16", N: 8, Timeout: 15 * m}, {Test: "TestC16Window", N: 3, Timeout: 15 * m}},
+		Thorough:       []batchSpec{{Test: "TestC16", N: 16, Timeout: 30 * m}, {Test: "TestC16Window", N: 6, Timeout: 30 * m}},
 		EvalStats:      []string{"c16.cells"},
-		Floors:         map[string]int64{"c16.cells": 160, "classes": 160},
-		FloorsThorough: map[string]int64{"c16.cells": 640, "classes": 160},
+		Floors:         map[string]int64{"c16.cells": 160, "c16.window_cells": 25, "classes": 165},
+		FloorsThorough: map[string]int64{"c16.cells": 640, "c16.window_cells": 170, "classes": 165},
 		Exhaustive:     func(r *result) bool { return r.stats["c16.cells"] >= 160 },
 		Assumptions:    []string{"'bounded time' is decided at synctest quiescence (every goroutine durably blocked) plus goroutine-state inspection, not by a deadline", "read/write errors as a cause are exercised in C09 (chaos conn) and C05"},
 	},
@@ -251,12 +251,12 @@ var plans = map[string]*plan{
 	},
 	"C05": {
 		Level: "fault_enumeration",
-		Rule: "the broker runs as separate OS processes (real ListenAndServe on 127.0.0.1, 16 KiB rings, connect timeout 1 s); a witness publisher/subscriber pair with numbered CRC payloads and an idle observer stay connected while attacker connections run: pre-CONNECT (every prefix of a valid CONNECT then close, every byte of it set to 0xff/0x00/+1, every wrong first packet type, unterminated / maximal / larger-than-ring remaining lengths, random bytes, silence until the connect timeout), post-CONNECT (the C04 mutation corpus of all 14 packet types, PUBLISH packets from 8 KiB-16 to 1 MiB, packets a client must not send), disconnects (close at sampled byte offsets of SUBSCRIBE and QoS 2 PUBLISH, close of a subscriber of the witness topic at seeded delays while 40 witness messages are flowing to it, half-close, a subscriber that stops reading then closes). " +
+		Rule: "the broker runs as separate OS processes (real ListenAndServe on 127.0.0.1, 16 KiB rings, connect timeout 1 s); a witness publisher/subscriber pair with numbered CRC payloads and an idle observer stay connected while attacker connections run: pre-CONNECT (every prefix of a valid CONNECT then close, every byte of it set to 0xff/0x00/+1, every wrong first packet type, unterminated / maximal / larger-than-ring remaining lengths, random bytes, silence until the connect timeout), post-CONNECT (the C04 mutation corpus of all 14 packet types, PUBLISH packets from 8 KiB-16 to 1 MiB, packets a client must not send), disconnects (close at sampled byte offsets of SUBSCRIBE and QoS 2 PUBLISH, close of a subscriber of the witness topic at seeded delays while 40 witness messages are flowing to it, half-close, a subscriber that stops reading then closes, a subscriber with a 4 KiB receive buffer that stops reading while a bystander floods it until the bystander's own PINGREQs go unanswered and is then cut - the bystander must come back). " +
 			"After every attack: the broker process is alive (exit status and stderr captured), witness and observer connections are open, and the witness subscriber received exactly the next witness messages in order and nothing else. distinct = (attack class, variant).",
 		Quick:          []batchSpec{{Test: "TestC05", N: 8, Timeout: 20 * m, Weight: 2}},
 		Thorough:       []batchSpec{{Test: "TestC05", N: 16, Timeout: 90 * m}},
 		EvalStats:      []string{"c05.attacks"},
-		Floors:         map[string]int64{"c05.attacks": 1200, "c05.broker_processes": 8, "c05.witness_messages": 8000, "classes": 25},
+		Floors:         map[string]int64{"c05.attacks": 1200, "c05.broker_processes": 8, "c05.witness_messages": 8000, "c05.stalled_reached": 3, "classes": 25},
 		FloorsThorough: map[string]int64{"c05.attacks": 30000, "classes": 25},
 		Assumptions:    []string{"loopback TCP; read/write errors below the socket API cannot be injected from outside the broker process (they are in C09/C16 via the chaos conn)", "no address-space cap is imposed: after the fix of the 5-byte remaining length an unauthenticated connection can make the broker reserve at most 256 MiB"},
 	},
